@@ -191,7 +191,7 @@ def run(ctx):
     fails = []
     for i in range(ctx.pick(12, 96)):
         cell = cells[(i * 7) % len(cells)]
-        base = gen.synth_case(rng, cell, addons=False, overpressure=False)
+        base = gen.synth_case(rng, cell, addons=False, overpressure=False, sdac=False)
         kind = i % 6
         c = [list(kv) for kv in base]
         if kind == 0:
